@@ -1,16 +1,17 @@
 import Tmv.Model.Sync
+import Tmv.Lemmas.NetNI
 /-! Per-node progress lemmas on the functions of `Tmv.Cons` used by C03 (no network needed):
 what round a node is in after `enterNewRound` and the functions it runs into, round skipping,
 the unlock rule, re-proposal of the valid block, and the commit step. -/
 namespace Tmv.Cons
 
-@[simp] theorem emit_round (s : NodeState) (o : Output) : (emit s o).round = s.round := by
+@[simp] theorem emit_round' (s : NodeState) (o : Output) : (emit s o).round = s.round := by
   unfold emit; split <;> rfl
-@[simp] theorem emit_step (s : NodeState) (o : Output) : (emit s o).step = s.step := by
+@[simp] theorem emit_step' (s : NodeState) (o : Output) : (emit s o).step = s.step := by
   unfold emit; split <;> rfl
 @[simp] theorem emit_halted (s : NodeState) (o : Output) : (emit s o).halted = s.halted := by
   unfold emit; split <;> simp_all
-@[simp] theorem emit_votes (s : NodeState) (o : Output) : (emit s o).votes = s.votes := by
+@[simp] theorem emit_votes' (s : NodeState) (o : Output) : (emit s o).votes = s.votes := by
   unfold emit; split <;> rfl
 @[simp] theorem emit_valRound (s : NodeState) (o : Output) : (emit s o).valRound = s.valRound := by
   unfold emit; split <;> rfl
@@ -25,7 +26,7 @@ theorem sign_round {c : Cfg} {s s' : NodeState} {r k : Nat} {p : Payload}
     · repeat' split at h
       all_goals first | (cases h; exact ⟨rfl, rfl, rfl⟩) | contradiction
 
-theorem signAddVote_round (c : Cfg) (s : NodeState) (t : VType) (b : Bid) :
+theorem signAddVote_round' (c : Cfg) (s : NodeState) (t : VType) (b : Bid) :
     (signAddVote c s t b).round = s.round ∧ (signAddVote c s t b).halted = s.halted ∧
       (signAddVote c s t b).step = s.step := by
   unfold signAddVote
@@ -39,14 +40,14 @@ theorem signAddVote_round (c : Cfg) (s : NodeState) (t : VType) (b : Bid) :
         simp [this]
       · exact ⟨rfl, rfl, rfl⟩
 
-theorem doPrevote_round (c : Cfg) (s : NodeState) :
+theorem doPrevote_round' (c : Cfg) (s : NodeState) :
     (doPrevote c s).round = s.round ∧ (doPrevote c s).halted = s.halted := by
   unfold doPrevote
   split
-  · exact ⟨(signAddVote_round ..).1, (signAddVote_round ..).2.1⟩
+  · exact ⟨(signAddVote_round' ..).1, (signAddVote_round' ..).2.1⟩
   · split
-    · exact ⟨(signAddVote_round ..).1, (signAddVote_round ..).2.1⟩
-    · split <;> exact ⟨(signAddVote_round ..).1, (signAddVote_round ..).2.1⟩
+    · exact ⟨(signAddVote_round' ..).1, (signAddVote_round' ..).2.1⟩
+    · split <;> exact ⟨(signAddVote_round' ..).1, (signAddVote_round' ..).2.1⟩
 
 /-- `enterPrevote` leaves the node halted-or-not as it was and in round `s.round` or `round` -/
 theorem enterPrevote_round (c : Cfg) (s : NodeState) (round : Nat) :
@@ -57,9 +58,9 @@ theorem enterPrevote_round (c : Cfg) (s : NodeState) (round : Nat) :
   · exact ⟨rfl, Or.inl rfl⟩
   · split
     · exact ⟨rfl, Or.inl rfl⟩
-    · exact ⟨(doPrevote_round c s).2, Or.inr rfl⟩
+    · exact ⟨(doPrevote_round' c s).2, Or.inr rfl⟩
 
-theorem decideProposal_round (c : Cfg) (s : NodeState) (round me : Nat) :
+theorem decideProposal_round' (c : Cfg) (s : NodeState) (round me : Nat) :
     (decideProposal c s round me).round = s.round ∧ (decideProposal c s round me).halted = s.halted := by
   unfold decideProposal
   dsimp only
@@ -92,7 +93,7 @@ theorem enterPropose_round (c : Cfg) (s : NodeState) (round : Nat) (hh : s.halte
   split
   · exact key _ (by simp [hh])
   · split
-    · exact key _ (by rw [(decideProposal_round ..).2]; simp [hh])
+    · exact key _ (by rw [(decideProposal_round' ..).2]; simp [hh])
     · exact key _ (by simp [hh])
 
 theorem newRoundReset_round (s : NodeState) (round : Nat) :
